@@ -6,6 +6,9 @@ import Mhd.Proofs.FramingChunk
 namespace Mhd.Framing
 open Mhd.Gen.Framing
 
+set_option linter.unusedSectionVars false
+variable [P : HeadParser] [L : LawfulHeadParser]
+
 /-- `mhd_assert (current_chunk_offset <= current_chunk_size)` -/
 def ChunkWF (s : St) : Prop := s.off ≤ s.cur
 
@@ -68,12 +71,12 @@ theorem step_ok (lvl : Int) (app : App) (s s' : St) (h : idleStep lvl app s = so
   unfold idleStep at h
   split at h
   · rename_i hs
-    cases hp : parseHead s.buf with
+    cases hp : P.head s.buf with
     | incomplete => simp [hp] at h
     | bad => simp only [hp] at h; cases h; exact ⟨wf, by simp [measure, rank, hs]⟩
     | ok hd rest =>
       simp only [hp] at h; cases h
-      have := parseHead_length _ _ _ hp
+      have := L.head_length _ _ _ hp
       exact ⟨wf, by simp only [measure, rank, hs]; omega⟩
   · rename_i hs
     split at h <;> cases h
@@ -97,12 +100,12 @@ theorem step_ok (lvl : Int) (app : App) (s s' : St) (h : idleStep lvl app s = so
     cases h; refine ⟨wf, ?_⟩
     simp only [measure, hs]; split <;> simp [rank]
   · rename_i hs
-    cases hp : parseTrailers s.buf with
+    cases hp : P.trailers s.buf with
     | incomplete => simp [hp] at h
     | bad => simp only [hp] at h; cases h; exact ⟨wf, by simp [measure, rank, hs]⟩
     | ok fs rest =>
       simp only [hp] at h; cases h
-      have := takeFields_length _ _ _ _ hp
+      have := L.trailers_length _ _ _ hp
       exact ⟨wf, by simp only [measure, rank, hs]; omega⟩
   · rename_i hs; cases h; exact ⟨wf, by simp [measure, rank, hs]⟩
   · rename_i hs
